@@ -16,6 +16,12 @@ FLOORS = {
               "cases[n==2*bandwidth]": 10},
     "thorough": {"distinct_nontrivial": 4000, "score_positions_checked": 500000},
 }
+ANCHORS = [
+    "skchange.change_detectors.moving_window.moving_window_transform",
+    "skchange.change_detectors.moving_window.get_moving_window_changepoints",
+    "skchange.utils.numba.general.where",
+    "skchange.change_detectors.moving_window.MovingWindow._tune_threshold",
+]
 LEVEL = "exploration"
 RULE = (
     "case = MovingWindow(change score in {default, CUSUM, L2Cost, GaussianVarCost, ChangeScore(L1Cost), "
